@@ -844,7 +844,7 @@ def _finish_collect(I, ctx, items, target):
 
 
 # ------------------------------------------------------------------ strings
-@M.on(r"^(core::str|std::string::String|alloc::string::String|str)::(len|is_empty|starts_with|ends_with|contains|to_lowercase|to_uppercase|to_string|to_owned|new|from_utf8|from_utf8_lossy|push_str|get|splitn|split|parse|chars|bytes|eq_ignore_ascii_case|is_char_boundary|strip_prefix|find|with_capacity|push|from_utf8_unchecked|trim_start_matches|trim_end_matches|split_once)$")
+@M.on(r"^(core::str|std::string::String|alloc::string::String|str)::(len|is_empty|starts_with|ends_with|contains|to_lowercase|to_uppercase|to_string|to_owned|new|from_utf8|from_utf8_lossy|push_str|get|splitn|split|chars|bytes|eq_ignore_ascii_case|is_char_boundary|strip_prefix|find|with_capacity|push|from_utf8_unchecked|trim_start_matches|trim_end_matches|split_once)$")
 def m_str(I, ctx, callee, args, crate):
     meth = strip_generics(callee).split("::")[-1]
     if meth in ("new", "with_capacity"): return ""
